@@ -82,6 +82,7 @@ func scenC04(w *vsim.World, spec *vsim.Spec) {
 	sent := map[string][]tentry{}
 	untrashStarted := map[string]int{}
 	deleteStarted := map[string]int{} // DELETE requests ever started, per hash
+	lastCopyWrite := map[string]time.Time{} // request task id -> time of the latest data-write step of a block write it performed
 	taskStart := map[string]time.Time{}    // request task id (up to the first '.') -> time of its first filesystem step
 	stalledWriter := map[string]bool{}     // hash -> a PUT that had been in flight for >= TTL renamed its copy into place
 	twSeen := map[string][]int64{} // hash -> stored mtimes the trash worker saw when it stat'ed the block
@@ -255,6 +256,9 @@ func scenC04(w *vsim.World, spec *vsim.Spec) {
 		if _, ok := taskStart[root]; !ok {
 			taskStart[root] = time.Now()
 		}
+		if s.Op == "copy-write" {
+			lastCopyWrite[root] = time.Now()
+		}
 		if s.Op == "rename" && strings.Contains(s.Path, "/tmp") && time.Since(taskStart[root]) >= ttl {
 			base := filepath.Base(s.Path2)
 			if len(base) == 32 {
@@ -307,6 +311,14 @@ func scenC04(w *vsim.World, spec *vsim.Spec) {
 					liveWriter[h]--
 					w.Logf("%s %s %s -> %d", tag, []string{"PUT", "TOUCH"}[o.kind], h[:8], r.code)
 					if r.code == 200 {
+						// The acknowledgement (time t of the statement) comes after the stored timestamp was
+						// chosen, and the clock may jump in between, so t itself is not usable. Lower bounds
+						// of t that any implementation stamping the block when its data is complete honours:
+						// the start of the operation, and the last data-write step of a fresh block write.
+						if lw, ok := lastCopyWrite[r.reqID]; ok && o.kind == 0 && lw.After(start) {
+							start = lw
+							w.Probe("put-guard-from-last-data-write")
+						}
 						guards = append(guards, c04guard{h, start})
 						w.Probe([]string{"put-acked", "touch-acked"}[o.kind])
 					}
